@@ -11,11 +11,18 @@
      ED id hex                  obs            mp4.DecodeBox on the bytes of an mp4a entry (ES: mp4.DecodeBoxSR)
      BW id ops flush            hex            bits.Writer: ops = v:w;... (hex value, decimal width), Flush if flush=1
      BR id hex widths           obs            bits.Reader: Read(w) for each width: value/err,...
+     EH id ops obs final        history of SetAACDescriptor builds (B:ini:trk:ot:f), entry encodes (E:idx) and init-segment
+                                encodes (I:ini); obs = one observation per operation; final = per entry: two more
+                                encodes, the in-memory DecConfig, DecodeBox and DecodeBoxSR on its bytes
+     AS id k cfgs hex obs       k configurations (ot/ch/f/e;...) encoded into ONE writer (hex), then k calls of
+                                DecodeAudioSpecificConfig on ONE reader: result@bytes-left;...   (cfgs "-": raw bytes)
+     HS id k items hex obs      the same for ADTS headers (junk:fields;...)
    ED cases outside the modelled decoder path are answered "SKIP <id>" *)
 open Vx
 open Base
 open C18Model
 open C18EntryModel
+open C18HistModel
 
 let ni s = n_of_int (int_of_string s)
 
@@ -136,4 +143,63 @@ let () =
              | _ -> "err" in
            if m = obs then Printf.printf "OK %s\n" id
            else Printf.printf "MISMATCH %s %s model=%s\n" id what m)
+      | ["EH"; id; ops; obs; fin] ->
+        let parse_op o = match split_on ':' o with
+          | ["B"; ini; trk; ot; f] -> HBuild (ni ini, ni trk, ni ot, z_of_hex f)
+          | ["E"; idx] -> HEncEntry (nat_of_int (int_of_string idx))
+          | ["I"; ini] -> HEncInit (ni ini)
+          | _ -> failwith "bad op" in
+        let (st, os) = hrun (L.map parse_op (split_on ';' ops)) [] in
+        let obs_s = function
+          | OBuilt -> "b" | OBuildErr -> "e" | ONoEntry -> "n"
+          | OBytes l -> "=" ^ S.concat "," (L.map hex_of_bytes l) in
+        let m_obs = S.concat ";" (L.map obs_s os) in
+        let ent_obs dec casc data = match dec data with
+          | EUnmodelled -> "unmodelled"
+          | EOk e ->
+            let a = match casc data with EOk a -> asc_obs (Ok a) | _ -> "err" in
+            Printf.sprintf "ok/%d/%d/%d/%d/%s/%s" (int_of_n e.e_dri) (int_of_n e.e_cc) (int_of_n e.e_ss)
+              (int_of_n e.e_rate) (hex_of_bytes e.e_dc) a
+          | _ -> "err" in
+        let m_fin = match st with
+          | [] -> "-"
+          | _ -> S.concat "|" (L.map (fun e ->
+              let b = hex_of_bytes e.he_bytes in
+              let dc = match encode_asc (set_aac_asc e.he_ot e.he_f) with Ok d -> hex_of_bytes d | _ -> "?" in
+              S.concat "," [b; b; dc; ent_obs decode_entry entry_asc e.he_bytes;
+                            ent_obs decode_entry_sr entry_asc_sr e.he_bytes]) st) in
+        if m_obs = obs && m_fin = fin then Printf.printf "OK %s\n" id
+        else if m_obs <> obs then Printf.printf "MISMATCH %s history-observations model=%s\n" id m_obs
+        else Printf.printf "MISMATCH %s history-final-entries model=%s\n" id m_fin
+      | ["AS"; id; k; cfgs; hex; obs] ->
+        let data = bytes_of_hex hex in
+        let enc_ok = cfgs = "-" ||
+          (let l = L.map (fun c -> match split_on '/' c with
+               | [ot; ch; f; e] -> { a_ot = ni ot; a_chan = ni ch; a_freq = z_of_hex f; a_ext = z_of_hex e;
+                                     a_sbr = false; a_ps = false }
+               | _ -> failwith "bad cfg") (split_on ';' cfgs) in
+           hex_of_bytes (encode_asc_stream l) = hex) in
+        let m = S.concat ";" (L.map (fun (r, left) -> match r with
+            | Ok a -> asc_obs (Ok a) ^ "@" ^ string_of_int (int_of_n left)
+            | r -> asc_obs r) (decode_asc_stream (nat_of_int (int_of_string k)) data)) in
+        if enc_ok && m = obs then Printf.printf "OK %s\n" id
+        else if not enc_ok then Printf.printf "MISMATCH %s asc-stream-encode\n" id
+        else Printf.printf "MISMATCH %s asc-stream-decode model=%s\n" id m
+      | ["HS"; id; k; items; hex; obs] ->
+        let data = bytes_of_hex hex in
+        let enc_ok = items = "-" ||
+          (let l = L.map (fun c -> match split_on ':' c with
+               | [junk; fields] ->
+                 (match L.map ni (split_on '/' fields) with
+                  | [idd; ot; sfi; ch; hl; pl; bf] ->
+                    (bytes_of_hex junk, { h_id = idd; h_ot = ot; h_sfi = sfi; h_chan = ch; h_hlen = hl; h_plen = pl; h_bf = bf })
+                  | _ -> failwith "bad header")
+               | _ -> failwith "bad item") (split_on ';' items) in
+           hex_of_bytes (encode_adts_stream l) = hex) in
+        let m = S.concat ";" (L.map (fun (r, left) -> match r with
+            | Ok _ -> adts_obs r ^ "@" ^ string_of_int (int_of_n left)
+            | r -> adts_obs r) (decode_adts_stream (nat_of_int (int_of_string k)) data)) in
+        if enc_ok && m = obs then Printf.printf "OK %s\n" id
+        else if not enc_ok then Printf.printf "MISMATCH %s adts-stream-encode\n" id
+        else Printf.printf "MISMATCH %s adts-stream-decode model=%s\n" id m
       | _ -> Printf.printf "BADLINE %s\n" line)
